@@ -48,6 +48,15 @@ def check(ctx):
         clone_provenance(ctx, o)
     ctx.guarded(o, prov)
 
+    o = ctx.ob('copy_is_faithful', 'R9',
+               "Task.clone hands every data field to the copy: constructor arguments for the private fields and an unfiltered loop over "
+               "the public instance attributes (same ids, field values and custom attributes in the result) - shared rule with C10")
+
+    def faithful(o):
+        from . import c10
+        c10._fields(ctx, o)
+    ctx.guarded(o, faithful)
+
     o = ctx.ob('scheduler_frame', 'R9a',
                "the passes, searches and fill loops write only start/end/estimate/spent of tasks, ledger rows, the memo and the "
                "scheduler's resource table - never ids, relations, owners or custom attributes", floor=8)
